@@ -110,7 +110,7 @@ def step (ws : List String) : String :=
   | ["idle.run", kind, when_, kS, mS, eS] =>
     match kS.toNat?, mS.toNat?, eS.toNat? with
     | some k, some m, some ev =>
-      if !(["mem-keep", "mem-nosender", "mem-neversender", "mem-latedrop", "fs"].contains kind) || !(["idle", "after-reload", "queued-events", "after-loads"].contains when_) || k == 0 || k > 16 then "bad-op" else
+      if !(["mem-keep", "mem-nosender", "mem-neversender", "mem-latedrop", "fs"].contains kind) || !(["idle", "after-reload", "queued-events", "after-loads", "burst-then-reload"].contains when_) || k == 0 || k > 16 then "bad-op" else
       let evConn := kind == "mem-keep" || kind == "fs"
       let before := verdict genCfg.loop ⟨0, 0, true, evConn⟩
       let after := if before == .exited then .exited else verdict genCfg.loop ⟨m, ev, false, evConn⟩
